@@ -4,6 +4,12 @@ import argparse, hashlib, json, os, random, sys, time, traceback, importlib, re
 from . import lean
 from .paths import VERIF, LEAN, EVIDENCE, REPLAYS, KNOWN, REPO, GUARD
 
+if os.environ.get("VERIF_TRACE_CALLS"):
+    # measurement of the traversed source pins (py/tools/pin_traversed.py): record which code of $VERIF_REPO/src/qutip_qip is
+    # executed; installed here, before any property module imports or calls the package (helper processes import this module too)
+    from . import pins as _trace_pins
+    _trace_pins.install_tracer_from_env()
+
 
 class TranslatorError(Exception):
     pass
@@ -155,15 +161,14 @@ def run_check(chk: PropertyCheck, tier: str, seed: int):
     # 1b. source pins: is the code the hand-written model transcribes still the code that is there? ----------
     try:
         from . import pins as _pins
-        moved = _pins.check(pid)
+        moved = _pins.check_kinds(pid)
         if moved:
-            broken.append(("source-pin", "modelled source changed (the model was written from other text): "
-                           + "; ".join(f"{f}::{n} ({why})" for f, n, why in moved[:8])
-                           + (f" … and {len(moved) - 8} more" if len(moved) > 8 else "")))
+            for text in _pins.describe(moved):
+                broken.append(("source-pin", text))
         else:
-            npins = len(_pins.load(pid).get("items", []))
-            if npins:
-                ctx.log(f"source pins: {npins} modelled function(s)/table(s) unchanged")
+            n_tr, n_tv = _pins.counts(pid)
+            if n_tr + n_tv:
+                ctx.log(f"source pins: {n_tr} transcribed + {n_tv} traversed item(s) unchanged")
     except Exception as e:
         broken.append(("source-pin", "source pins could not be evaluated: " + repr(e)))
 
